@@ -38,10 +38,23 @@ PARTIAL = [
 ]
 EXHAUSTIVE = {"quick": False, "thorough": True}
 
-FINDING_STAND = "C11-argvals-stand-unguarded"
-
-
 _GUARD_CACHE = {}
+FINDING_STAND = "C11-argvals-stand-unguarded"
+FINDING_IOR = "C11-typed-dict-ior"
+
+
+def _ior_open():
+    """Is `C11-typed-dict-ior` listed open?  (`VERIF_C11_IOR_OPEN=0|1` overrides, to validate a patched tree.)"""
+    import os
+
+    if os.environ.get("VERIF_C11_IOR_OPEN") in ("0", "1"):
+        return os.environ["VERIF_C11_IOR_OPEN"] == "1"
+    if "ior" not in _GUARD_CACHE:
+        try:
+            _GUARD_CACHE["ior"] = any(f.get("id") == FINDING_IOR for f in common.load_findings(PROP))
+        except ValueError:
+            _GUARD_CACHE["ior"] = True
+    return _GUARD_CACHE["ior"]
 
 
 def _guard():
@@ -482,7 +495,7 @@ def _wrong_class(obj, toks):
     """Is the argument of this setter / constructor of a class for which a TypeError is documented?"""
     A, V, FD = cu._fd()
     op = toks[0]
-    if op == "bi":
+    if op in ("bi", "bo"):
         return isinstance(obj, FD.GridFunctionalData) and not (toks[1][0] == "v" and isinstance(obj, FD.DenseFunctionalData))
     if op in ("mkD", "mkI"):
         want = "d" if op == "mkD" else "i"
@@ -528,11 +541,11 @@ def apply_op(obj, toks, shadow):
             val = (cu.parse_val(tk) if op == "setV" else cu.parse_arg(tk))()
             setattr(obj, {"setA": "argvals", "setV": "values", "setS": "argvals_stand"}[op], val)
             return obj, "ok", shadow
-        if op == "bi":
+        if op in ("bi", "bo"):
             if not is_grid:
                 return obj, "na", shadow
             t = tk.next()
-            if not cu.bad_item_assign(obj, t[0], int(t[1:] or 0)):
+            if not cu.bad_item_assign(obj, t[0], int(t[1:] or 0), ior=(op == "bo")):
                 return obj, "na", shadow
             return obj, "ok", shadow
         if op in ("app", "ext", "ins", "rem", "pop", "popd", "clr", "rev"):
@@ -720,6 +733,13 @@ def _content_of(state):
     return [[(None, r) for r in c["rows"]] if c["kind"] == "D" else [(l, r) for l, _, r in c["v"]] for c in cs]
 
 
+def _safe(f, default):
+    try:
+        return f()
+    except Exception:  # noqa: BLE001  (a corrupted object: wrong-class items inside its dictionaries)
+        return default
+
+
 def run_history(ops, light=0):
     """Replay a history; the first `light` steps are replayed without reading the state back
     (exhaustive tier: the prefix is judged by its own, shorter, cases)."""
@@ -746,9 +766,10 @@ def run_history(ops, light=0):
         after = cu.show_state(obj)
         fresh = out == "ok" and toks[0] in _FRESH_OPS
         if k + 1 == light:
-            steps.append(dict(out=out, state=after, obs="", bad=check_obj(obj, shadow, fresh), unchanged=True))
+            steps.append(dict(out=out, state=after, obs="", bad=_safe(lambda: check_obj(obj, shadow, fresh), ["corrupt_object"]), unchanged=True))
             continue
-        steps.append(dict(out=out, state=after, obs=cu.show_observers(obj), bad=check_obj(obj, shadow, fresh),
+        steps.append(dict(out=out, state=after, obs=_safe(lambda: cu.show_observers(obj), "?corrupt"),
+                          bad=_safe(lambda: check_obj(obj, shadow, fresh), ["corrupt_object"]),
                           unchanged=(before == after), info=info))
     return obj, steps
 
@@ -869,11 +890,14 @@ def _bad_variant_cases():
             yield dict(kind="seq", start="bad:" + kind, ops=[START[kind], ["setV", f"bv{k}"], ["mkI"] + good_ia + [f"bv{k}"]])
         for k in range(cu.N_BAD_ITEM):
             yield dict(kind="seq", start="bad:" + kind, ops=[START[kind], ["bi", f"a{k}"], ["bi", f"v{k}"], ["gs", "N", "N", "N"]])
+            for t in ("a", "v"):
+                # the same wrong-class item offered through `|=` (always the last step of its history)
+                yield dict(kind="seq", start="bad:" + kind, ops=[START[kind], ["bi", f"{t}{k}"], ["bo", f"{t}{k}"]])
     for k in range(cu.N_BAD_ARG):
         yield dict(kind="seq", start="bad:multi", ops=[START["multi"], ["app", "I", f"ba{k}"] + good_iv, ["ext", "1", "D", f"ba{k}"] + v_dense([0, 1], [3])])
 
 
-XOPS_PRESERVING = {"xdel", "xadd", "xmul", "ximul", "xcopy", "xsort"}
+XOPS_PRESERVING = {"xdel", "xadd", "xmul", "ximul", "xsort"}
 
 
 def _xop_cases(rng: Rng, n):
@@ -899,10 +923,8 @@ def _xop_cases(rng: Rng, n):
             x = ["xadd", str(k)] + [t for _ in range(k) for t in rand_recipe(rng, nobs)]
         elif c < 0.78:
             x = ["xmul", str(rng.randint(-1, 3))]
-        elif c < 0.88:
+        elif c < 0.92:
             x = ["ximul", str(rng.randint(-1, 3))]
-        elif c < 0.94:
-            x = ["xcopy"]
         else:
             x = ["xsort"]
         yield dict(kind="xop", start="xop", ops=ops, xop=x)
@@ -934,8 +956,6 @@ def _xop_run(case):
         elif op == "ximul":
             obj *= int(tk.next())
             res = obj
-        elif op == "xcopy":
-            res = obj.copy()
         elif op == "xsort":
             obj.sort()
         out = "ok"
@@ -1027,6 +1047,8 @@ def search_cases(rng, tier):
 
 
 def witness_cases():
+    if _ior_open():
+        yield dict(kind="seq", start="witness", ops=[START["dense"], ["bo", "a1"]], witness=FINDING_IOR)
     if _guard() == 0:
         yield dict(kind="seq", start="witness", ops=[START["dense"], ["setS"] + a_dense([4], 0)],
                    witness=FINDING_STAND)
@@ -1111,6 +1133,8 @@ def compare(case, impl, model):
     if len(impl["steps"]) != len(model["steps"]):
         return [f"{len(impl['steps'])} steps vs model {len(model['steps'])}"]
     for k, (i, m) in enumerate(zip(impl["steps"], model["steps"])):
+        if case["ops"][k][0] == "bo" and i["out"] == "ok" and _ior_open():
+            break     # open finding: `|=` stores the wrong-class item; the corrupt object has no counterpart in the model
         op = " ".join(case["ops"][k])[:120]
         if i["out"] != m["out"]:
             ds.append(f"step {k} `{op}`: outcome impl {i['out']} vs model {m['out']}")
@@ -1128,7 +1152,7 @@ _RANGE_OPS = {"gi", "ga", "pop", "popd"}
 _ENTRY = {"setA": "argvals.setter", "setV": "values.setter", "setS": "argvals_stand.setter", "mkD": "DenseFunctionalData",
           "mkI": "IrregularFunctionalData", "mkM": "MultivariateFunctionalData", "app": "append", "ext": "extend",
           "ins": "insert", "rem": "remove", "pop": "pop", "popd": "pop", "clr": "clear", "rev": "reverse",
-          "gi": "__getitem__", "gs": "__getitem__", "ga": "__getitem__", "cat": "concatenate", "bi": "typed_dict.__setitem__"}
+          "gi": "__getitem__", "gs": "__getitem__", "ga": "__getitem__", "cat": "concatenate", "bi": "typed_dict.__setitem__", "bo": "typed_dict.__ior__"}
 
 
 def _judge(ops, steps):
@@ -1149,7 +1173,7 @@ def _judge(ops, steps):
                                msg=f"step {k} `{desc}` was rejected with {st['out']}"))
         info = st.get("info") or {}
         if info.get("wrong_class") and st["out"] != "TypeError":
-            vs.append(dict(clause="reject_type_documented", entry=entry, causes=["got_" + st["out"]], step=k,
+            vs.append(dict(clause="reject_type_documented", entry=entry, causes=["got_" + st["out"]] + (["ior_bypasses_setitem"] if op == "bo" else []), step=k,
                            msg=f"step {k} `{desc}`: an argument of the wrong class must raise TypeError, got {st['out']}"))
         if info.get("cat_compatible") is False and st["out"] == "ok":
             vs.append(dict(clause="incompatible_accepted", entry=entry, causes=[], step=k,
@@ -1174,6 +1198,8 @@ def _judge(ops, steps):
                 vs.append(dict(clause="select_plain", entry=entry, causes=[], step=k,
                                msg=f"step {k} `{desc}` was accepted ({st['state']}); plain list indexing raises {ps[1]}"))
         new_bad = [b for b in st["bad"] if b not in prev_bad]
+        if op == "bo" and st["out"] == "ok":
+            new_bad = []      # the corrupt dictionary is the consequence of the clause just reported
         for b in new_bad:
             causes = []
             if b == "stand_tracks" and op == "setS" and st["out"] == "ok":
